@@ -8,13 +8,21 @@ Three parts (see coq/Props/C17.v for what is a theorem and what is not):
      dicts are compared with the baseline style.
 
 Signatures (computed from the structure of the variant, never from messages):
-  style=trailing-comment,line-kind=<kind>,context=<top|if|for|join>
-  style=legacy,construct=<if|for|py>[,cond=has-colon]
-  style=indent,construct=<if|for|py|join>[,inner=py]
+  style=trailing-comment,line-kind=<kind>,context=<top|if|for|join>      (kind stmt-open: first line of a multi-line ~)
+  style=legacy,construct=<if|for|py>[,cond=has-colon][,body=<B>]
+  style=indent,construct=<if|for|py|join>[,inner=<I>][,body=<B>]
   style=hash-comment,position=<file-top|top|if|for|join>
-  style=combo,parts=<a+b+...>          (only built from parts that passed on their own on that story)
-  style=baseline,intact=<escaped-slashes|floordiv-assign>,where=<text|stmt>
+  style=hash-comment,position=<if|for>,column=0    (# lines at column 0 in a body that is indented; built only when
+                                                    the indentation and the # lines each passed on their own)
+  style=combo,parts=<a+b+...>[,inner=<I>][,body=<B>]   (only built from parts that passed on their own on that story;
+                                        the pairs legacy:<c>+indent:<c> and legacy:py+indent:<enclosing block> are
+                                        built systematically, the others at random)
+  style=baseline,intact=<escaped-slashes|floordiv-assign|multiline-stmt>,where=<text|stmt>
   helper-law=<name>                     (a law of Props/C17.v fails on the real helper)
+  <I> = '+'-joined subset of {multiline-stmt, py}: what the variant indents besides story lines (continuation lines of
+        a multi-line ~ statement, the body of an @py: block)
+  <B> = '+'-joined subset of {leading-blank, ws-only-line}: blank-line shapes of the Python blocks of the witness
+        (first body line empty; some body line consisting of blanks/tabs only); present only on py-related styles
 """
 from __future__ import annotations
 
@@ -121,27 +129,52 @@ def has_colon_header(story, construct):
     return False
 
 
+def inner_tags(story, style):
+    """What a variant indents besides story lines: @py: bodies, continuation lines of multi-line ~ statements."""
+    tags = set()
+    for l in G.print_story(story, style).lines:
+        if l.indent and l.kind == "py-body" and l.ctx == "py":
+            tags.add("py")
+        elif l.indent and l.kind == "stmt-cont" and l.ctx != "join":
+            tags.add("multiline-stmt")
+    return sorted(tags)
+
+
+def body_suffix(story):
+    tags = G.py_body_tags(story)
+    return (",body=" + "+".join(tags)) if tags else ""
+
+
 def signature_of(story, style, label):
     """The signature of a style variant, from the structure of the story and the style only."""
     fam, _, rest = label.partition(":")
     if fam == "legacy":
         c = rest
-        return f"style=legacy,construct={c}" + (",cond=has-colon" if c != "py" and has_colon_header(story, c) else "")
+        if c == "py":
+            return "style=legacy,construct=py" + body_suffix(story)
+        return f"style=legacy,construct={c}" + (",cond=has-colon" if has_colon_header(story, c) else "")
     if fam == "indent":
         c = rest.split(":")[0]
         if c == "join":
             return "style=indent,construct=join"
-        printed = G.print_story(story, style)
-        inner_py = c != "py" and any(l.kind == "py-body" and l.ctx == "py" and l.indent for l in printed.lines)
-        return f"style=indent,construct={c}" + (",inner=py" if inner_py else "")
+        if c == "py":
+            return "style=indent,construct=py" + body_suffix(story)
+        inner = inner_tags(story, style)
+        return f"style=indent,construct={c}" + (",inner=" + "+".join(inner) if inner else "") + \
+            (body_suffix(story) if "py" in inner else "")
     if fam == "hash":
         return f"style=hash-comment,position={rest}"
+    if fam == "hash0":
+        return f"style=hash-comment,position={rest.split(':')[0]},column=0"
     if fam == "trailing":
         kind, _, ctx = rest.rpartition("@")
         return f"style=trailing-comment,line-kind={kind},context={ctx}"
     if fam == "combo":
         fams = sorted({":".join(p.split(":")[:2]) for p in rest.split(",")})
-        return "style=combo,parts=" + "+".join(fams)
+        inner = inner_tags(story, style) if any(f.startswith("indent:") and f != "indent:join" for f in fams) else []
+        py = "py" in inner or any(f in ("legacy:py", "indent:py") for f in fams)
+        return "style=combo,parts=" + "+".join(fams) + (",inner=" + "+".join(inner) if inner else "") + \
+            (body_suffix(story) if py else "")
     raise AssertionError(label)
 
 
@@ -222,7 +255,14 @@ class Differential:
         compiled_strings(compiled, got)
         for p in story.passages:
             for it, ctx in G.walk(p.body):
-                if isinstance(it, G.Stmt) and ("//=" in it.code or "\\//" in it.code):
+                if isinstance(it, G.Stmt) and "\n" in it.code:
+                    # the baseline print is flush-left: the statement is its lines joined (top, @if, @for); a join
+                    # block takes the first line only (see the assumptions) and is not judged here
+                    if ctx != "join" and it.code not in got["code"]:
+                        self.record("style=baseline,intact=multiline-stmt,where=stmt", story, G.BASE, "baseline",
+                                    f"multi-line statement {it.code!r} should compile to that code; "
+                                    f"codes: {[c for c in got['code'] if c[:6] == it.code[:6]][:4]}")
+                elif isinstance(it, G.Stmt) and ("//=" in it.code or "\\//" in it.code):
                     want = it.code.replace("\\//", "//")
                     if want not in got["code"]:
                         what = "floordiv-assign" if "//=" in it.code else "escaped-slashes"
@@ -275,9 +315,38 @@ class Differential:
                 self.note("trailing-legacy", oc is not None)
                 if oc is not None:
                     self.record(signature_of(story, style, label), story, style, label, oc)
-        # combinations of parts that passed on their own
         legs = [s for s in passed if s[2].startswith("legacy:")]
         inds = [s for s in passed if s[2].startswith("indent:") and not s[2].startswith("indent:join")]
+        # systematic two-part variants, each built only from parts that passed on their own on this story:
+        #  - the legacy form of a construct with its body indented; the legacy <<py with the enclosing body indented
+        #  - # comment lines at column 0 inside an indented @if/@for body
+        extra = []
+        for lg in legs:
+            lc = next(iter(lg[1].legacy))
+            for ic in ("if", "for", "py"):
+                cands = [s for s in inds if s[1].indent[0][0] == ic]
+                if not cands or not (lc == ic or (lc == "py" and "py" in inner_tags(story, cands[0][1]))):
+                    continue
+                pick = rng.choice(cands)
+                extra.append(("pair", G.Style(legacy=lg[1].legacy, indent=pick[1].indent),
+                              f"combo:{lg[2]},{pick[2]}"))
+        for pos in ("if", "for"):
+            cands = [s for s in inds if s[1].indent[0][0] == pos]
+            if cands and any(s[2] == f"hash:{pos}" for s in passed):
+                pick = rng.choice(cands)
+                extra.append(("hash-col0", G.Style(hash_at=frozenset([pos]), hash_col0=True, indent=pick[1].indent,
+                                                   comment=comment), f"hash0:{pos}:{pick[2].split(':')[2]}"))
+        for fam, style, label in extra:
+            sig = signature_of(story, style, label)
+            if sig in self.known:
+                self.skipped_known += 1
+                continue
+            oc = self.outcome(story, style, base_res)
+            nvar += 1
+            self.note(fam, oc is not None)
+            if oc is not None:
+                self.record(sig, story, style, label, oc)
+        # combinations of parts that passed on their own
         joins = [s for s in passed if s[2].startswith("indent:join")]
         hashes = [s for s in passed if s[2].startswith("hash:")]
         trails = [s for s in passed if s[2].startswith("trailing:")]
@@ -318,7 +387,7 @@ class Differential:
 def style_to_json(st: G.Style):
     return {"legacy": sorted(st.legacy), "indent": [list(x) for x in st.indent], "hash_at": sorted(st.hash_at),
             "trailing": list(st.trailing) if st.trailing else None, "join_indent": st.join_indent,
-            "comment": st.comment}
+            "comment": st.comment, "hash_col0": st.hash_col0, "hash_where": st.hash_where}
 
 
 # ------------------------------------------------------------------------------------------------
@@ -493,6 +562,10 @@ def run(tier: str, seed: int) -> int:
             plain = dataclasses.replace(style, comment="note")
             if style.comment != "note" and still(small, plain):
                 style = plain
+            if style.hash_at and style.hash_where == "every":       # one # line per body is the smaller witness
+                one = dataclasses.replace(style, hash_where="first")
+                if still(small, one):
+                    style = one
             oc = diff.outcome(small, style) or outcome
             sig = signature_of(small, style, label)
         bt, vt = G.print_story(small, G.BASE).text, G.print_story(small, style).text
@@ -560,7 +633,15 @@ def run(tier: str, seed: int) -> int:
                                   "Props/C17.v proves the helper-level statements (suffix _partial)")
     chk.assumptions = [
         "ASCII sources only; generated stories stay inside the documented language (docs/spec.md) and compile",
-        "multi-line ~ statements, imports and @metadata are not generated; comments are not placed inside @py bodies",
+        "imports and @metadata are not generated; bardic comments are not placed inside @py bodies nor on the "
+        "continuation lines of a multi-line ~ statement (those lines are Python)",
+        "multi-line ~ statements are generated at top level and in @if/@for bodies and join blocks; the parser of join "
+        "blocks takes only the first line of such a statement (the rest becomes text) - the same in every surface "
+        "style, so it is outside C17; the intact oracle does not judge statements in join blocks",
+        "whitespace-only lines of a Python block and blank lines are printed as written under every indentation style "
+        "(the reading of 'uniform indentation' of uniform_indent_invisible_partial in Props/C17.v)",
+        "a # comment line at column 0 is only generated in @if/@for bodies: inside a join block it ends the block "
+        "by design of indentation-delimited blocks",
         "a top-level blank line directly after a join choice is not generated (its attribution to the block depends on "
         "the neighbouring lines by design of indentation-delimited blocks)",
     ]
